@@ -6,6 +6,7 @@ import (
 	"math"
 	"math/big"
 	"sort"
+	"time"
 
 	"github.com/yaricom/goNEAT/v4/experiment"
 	"github.com/yaricom/goNEAT/v4/neat/genetics"
@@ -654,7 +655,7 @@ func RecordSurgery(t *Tape, exp *experiment.Experiment) string {
 		if n == 0 {
 			continue
 		}
-		switch t.Draw("surgery.kind", 5) {
+		switch t.Draw("surgery.kind", 6) {
 		case 0: // most recent first
 			for i, j := 0, n-1; i < j; i, j = i+1, j-1 {
 				tr.Generations[i], tr.Generations[j] = tr.Generations[j], tr.Generations[i]
@@ -688,6 +689,18 @@ func RecordSurgery(t *Tape, exp *experiment.Experiment) string {
 		case 4: // truncated
 			tr.Generations = tr.Generations[:t.Draw("surgery.cut", n)]
 			surgery += fmt.Sprintf(" truncate(trial %d)", ti)
+		case 5: // a generation record without a time stamp, or stamped by a clock centuries away from today's
+			gi := t.Draw("surgery.gen", n)
+			g := &tr.Generations[gi]
+			switch t.Draw("surgery.stamp", 3) {
+			case 0:
+				g.Executed = time.Time{}
+			case 1:
+				g.Executed = time.Date(2400+t.Draw("surgery.year", 600), 2, 29, 12, 0, 0, 5, time.UTC)
+			case 2:
+				g.Executed = time.Date(1500+t.Draw("surgery.year", 150), 7, 1, 0, 0, 0, 0, time.UTC)
+			}
+			surgery += fmt.Sprintf(" stamp(trial %d generation #%d := %s)", ti, gi, g.Executed.Format(time.RFC3339Nano))
 		}
 	}
 	return surgery
